@@ -928,11 +928,9 @@ public:
     } else if (version == 2) {
       graphFile.read(reinterpret_cast<char*>(edgeDst.data()),
                      sizeof(uint64_t) * numEdges);
+      // no padding in version 2: 64-bit destinations are 8-byte aligned
       readPosition =
           ((4 + numNodes) * sizeof(uint64_t) + numEdges * sizeof(uint64_t));
-      if (numEdges % 2) {
-        readPosition += sizeof(uint64_t);
-      }
     } else {
       GALOIS_DIE("unknown file version: ", version);
     }
